@@ -321,7 +321,10 @@ def main(ctx):
                       'the priority advances: some grant is given and, for RoundRobinArbiterEn, en is high',
                       'before the first reset the priority register is all zero (not one-hot): the component grants nothing; the property is read as starting at reset '
                       '(the model reproduces the cold behaviour and it is compared too)']
-  ctx.build_props(extra_models=['theories/Lib/Arbiter.vo'])
+  import stdlib_gen
+  # T-gen: the real component's update blocks are translated on every run (translators/stdlib2coq.py) and proved equal to
+  # the hand model at small parameters (Props/C19_gen.v)
+  ctx.build_props(gen_cmds=stdlib_gen.gen_cmds('arbiters'), extra_models=['theories/Lib/Arbiter.vo'])
   try:
     run(ctx)
   except Exception as e:
